@@ -28,6 +28,10 @@ sys.path.insert(0, os.path.dirname(os.path.abspath(__file__)))
 from props import PROPS  # per-property configuration
 
 
+# multiples of the builders' thorough case lists, sized so that one thorough run takes roughly 5-15 minutes on 16 idle cores
+THOROUGH_SCALE = {"C01": 6, "C02": 24, "C03": 6, "C04": 40, "C05": 16, "C06": 3, "C07": 3, "C08": 3, "C09": 3, "C10": 2,
+                  "C12": 5, "C13": 2, "C15": 16, "C16": 12, "C20": 4}
+
 RACE_FILES = set()  # event files written by workers of the -race build
 
 
@@ -174,6 +178,8 @@ def main():
         return 2
     cfg = PROPS[prop]
     t0 = time.time()
+    # thorough tier: cheap checks run a multiple of their case list (same PRNG addressing, longer lists)
+    GOENV["VERIF_THOROUGH_SCALE"] = str(cfg.get("thorough_scale", THOROUGH_SCALE.get(prop, 1)))
 
     replay = None
     if a.replay:
@@ -383,6 +389,7 @@ def main():
                 "known_findings_open": sorted(open_sigs),
                 "worker_shards_completed": done_files, "lost_cases": [{k: l[k] for k in ("case", "kind", "rc")} for l in lost],
                 "tolerances": cfg.get("tolerances", "exact comparison"),
+                "case_list_multiple": int(GOENV.get("VERIF_THOROUGH_SCALE", "1")) if a.tier == "thorough" else 1,
                 "exhaustive": False,
             },
             "assumptions": cfg.get("assumptions", []) + ([oracle_note] if oracle_note else []),
